@@ -30,6 +30,11 @@ class FloorError(AnalysisError):
     their own (each names its construct) and are still reported."""
 
 
+class AnchorError(FloorError):
+    """A statement of the vendored runtime that a model was derived from is gone: the rules that need the model are not run.
+    Findings of rules that ran before and do not use the model are still reported."""
+
+
 @dataclass
 class Obligation:
     rule: str          # e.g. "C02.OP-MUNCH"
